@@ -21,6 +21,9 @@ type bfEnv struct {
 	lookup func(m ast.Expr) (tri, bool)              // value of `_, ok := m[k]`
 	store  func(m ast.Expr) (effect string, ok bool) // effect name of `m[k] = v`; ok=false: not a tracked store
 	locals map[types.Object]tri
+	// continueAs, when set, gives the value a `continue` stands for when the interpreted statements are the body of
+	// a search loop ("this element does not qualify")
+	continueAs *tri
 }
 
 type bfOutcome struct {
@@ -194,6 +197,14 @@ func (e *bfEnv) run(stmts []ast.Stmt, out *bfOutcome) bool {
 					return true
 				}
 			}
+		case *ast.BranchStmt:
+			if x.Tok == token.CONTINUE && x.Label == nil && e.continueAs != nil {
+				out.Returned = true
+				out.Value = *e.continueAs
+				return true
+			}
+			out.Undecided = "unsupported branch statement " + x.Tok.String()
+			return true
 		case *ast.ExprStmt:
 			// calls for effect are outside the fragment unless the caller's atom function accepts them
 			if _, ok := e.atom(x.X); !ok {
@@ -223,6 +234,17 @@ func bfEvalFunc(info *types.Info, body *ast.BlockStmt, atom func(ast.Expr) (tri,
 	var out bfOutcome
 	if !e.run(body.List, &out) && out.Undecided == "" {
 		out.Undecided = "function falls off its end without returning"
+	}
+	return out
+}
+
+// bfEvalLoopBody evaluates the body of a search loop under one assignment: `continue` yields notQualified.
+func bfEvalLoopBody(info *types.Info, body *ast.BlockStmt, notQualified tri, atom func(ast.Expr) (tri, bool)) bfOutcome {
+	e := &bfEnv{info: info, atom: atom, lookup: func(ast.Expr) (tri, bool) { return triUnknown, false }, store: func(ast.Expr) (string, bool) { return "", false }, locals: map[types.Object]tri{}, continueAs: &notQualified}
+	var out bfOutcome
+	if !e.run(body.List, &out) && out.Undecided == "" {
+		// falling off the end of a loop body is the same as continue
+		out.Returned, out.Value = true, notQualified
 	}
 	return out
 }
